@@ -161,6 +161,76 @@ func runConc(tier string, seed int64) int {
 		add(id+".OfMany", func() string { return showU64s(bitmap.OfMany(subs, sizes)) })
 	}
 
+	// a large sparse bitmap: zero runs of more than 16384 bits, queries ending strictly inside the bitmap
+	{
+		l := 900
+		ws := make([]uint64, l)
+		for _, k := range []int{0, 1, 300, 301, 640, 899} {
+			ws[k] = 1<<uint(g.intn(64)) | 1
+		}
+		r64 := bitmap.IndexRank64(ws)
+		share("sparse.words", func() interface{} { return ws })
+		share("sparse.r64", func() interface{} { return r64 })
+		for q := 0; q < nQueries; q++ {
+			i := int32([]int{0, 64, 128, 2 * 64, 302 * 64, 641 * 64}[g.intn(6)] + g.intn(64))
+			e := int32([]int{300 * 64, 301*64 + 1, 640 * 64, 640*64 + 1, 899 * 64, 899*64 + 1, 900 * 64}[g.intn(7)])
+			if i > e {
+				i = 0
+			}
+			probe := e - int32(g.intn(3))
+			add("sparse.NextOne", func() string { return fmt.Sprint(bitmap.NextOne(ws, i, e), bitmap.PrevOne(ws, i, e)) })
+			add("sparse.Probe", func() string {
+				c, b := bitmap.Rank64(ws, r64, probe%int32(64*l))
+				return fmt.Sprint(bitmap.Get1(ws, probe%int32(64*l)), c, b, bitmap.NextOne(ws, probe%int32(64*l), int32(64*l)))
+			})
+		}
+	}
+
+	// two tree shapes of the same height >= 16 (anything remembered per height meets a different shape)
+	for _, t := range []int32{0x1ffff, 0x18001, 0x10101} {
+		t := t
+		bm := g.words((int(t)+63)/64, false)
+		id := fmt.Sprintf("bigtree%x", t)
+		share(id+".bm", func() interface{} { return bm })
+		add(id+".Decode", func() string {
+			ps := bmtree.Decode(t, bm)
+			h := uint64(14695981039346656037)
+			for _, p := range ps {
+				h = (h ^ p) * 1099511628211
+			}
+			return fmt.Sprint(len(ps), h)
+		})
+	}
+
+	// long strings (block-wise fast paths, lazily built tables)
+	for _, n := range []int{64, 100, 300, 1100} {
+		sa := string(g.bytes(n, 3))
+		sbb := []byte(sa)
+		sbb[n-1] ^= 1
+		sb := string(sbb)
+		id := fmt.Sprintf("long%d", n)
+		share(id, func() interface{} { return []string{sa, sb} })
+		for _, w := range []int{1, 2, 4, 8} {
+			bw := bitword.BitWord[w]
+			add(id+".bitword", func() string {
+				f := bw.FromStr(sa)
+				return fmt.Sprint(outBytes(f), bw.ToStr(f) == sa, bw.FirstDiff(sa, sb, 3, -1), bw.Get(sb, 8*n/w-1))
+			})
+		}
+		enc := bitstr.New(sa, 0, int32(8*n-3))
+		share(id+".enc", func() interface{} { return enc })
+		add(id+".bitstr", func() string {
+			return fmt.Sprint(bitstr.CmpUpto(sbb, enc), bitstr.StrCmpUpto(sb, enc), bitstr.Cmp(enc, bitstr.New(sb, 0, int32(8*n))), bitstr.Len(enc))
+		})
+		keys := []string{sa[:n/2], sa, sb}
+		sort.Strings(keys)
+		share(id+".keys", func() interface{} { return keys })
+		add(id+".sigbits", func() string {
+			a, b := sigbits.ShardByPrefix(keys, 2)
+			return showI32s(sigbits.FirstDiffBits(keys)) + showI32s(a) + showI32s(b)
+		})
+	}
+
 	// strings / keys
 	for k := 0; k < nBitmaps; k++ {
 		keyBytes := g.sortedKeys(2+g.intn(12), k%4)
@@ -235,13 +305,9 @@ func runConc(tier string, seed int64) int {
 		}
 	}
 
-	// sequential reference
-	want := make([]string, len(calls))
-	for i, c := range calls {
-		want[i] = safeCall(c.f)
-	}
-
-	// concurrent runs, every worker in its own order
+	// concurrent runs FIRST (the process's very first use of every function: lazily built state is built under
+	// contention), every worker in its own order; the sequential reference is computed afterwards
+	got := make([][]string, workers)
 	var mismatches int64
 	var firstMismatch atomic.Value
 	var wg sync.WaitGroup
@@ -249,24 +315,36 @@ func runConc(tier string, seed int64) int {
 	for w := 0; w < workers; w++ {
 		wg.Add(1)
 		perm := rand.New(rand.NewSource(seed*131 + int64(w))).Perm(len(calls))
-		go func(perm []int) {
+		got[w] = make([]string, rounds*len(calls))
+		go func(w int, perm []int) {
 			defer wg.Done()
 			<-start
 			for round := 0; round < rounds; round++ {
 				for _, i := range perm {
-					got := safeCall(calls[i].f)
-					if got != want[i] {
-						if atomic.AddInt64(&mismatches, 1) == 1 {
-							firstMismatch.Store(fmt.Sprintf("%s: concurrent %q, sequential %q", calls[i].name, got, want[i]))
-						}
-					}
+					got[w][round*len(calls)+i] = safeCall(calls[i].f)
 				}
 				runtime.Gosched()
 			}
-		}(perm)
+		}(w, perm)
 	}
 	close(start)
 	wg.Wait()
+
+	// sequential reference, after the fact
+	want := make([]string, len(calls))
+	for i, c := range calls {
+		want[i] = safeCall(c.f)
+	}
+	for w := 0; w < workers; w++ {
+		for k, g := range got[w] {
+			i := k % len(calls)
+			if g != want[i] {
+				if atomic.AddInt64(&mismatches, 1) == 1 {
+					firstMismatch.Store(fmt.Sprintf("%s: concurrent %q, sequential %q", calls[i].name, g, want[i]))
+				}
+			}
+		}
+	}
 
 	modified := []string{}
 	for _, s := range snaps {
